@@ -1382,6 +1382,25 @@ def template_input(inputfile, dumpfile, flux=False, verbose=False):
     verbose : :class:`bool`, optional
         If ``True``, print lots of extra information.
     """
+    #
+    # template_metadata() sets RUN2D and RUN1D.  Put them back however
+    # this function is left, not only when everything succeeds.
+    #
+    orig_env = {r: os.environ.get(r) for r in ('RUN2D', 'RUN1D')}
+    try:
+        _template_input(inputfile, dumpfile, flux=flux, verbose=verbose)
+    finally:
+        for r in orig_env:
+            if orig_env[r] is None:
+                os.environ.pop(r, None)
+            else:
+                os.environ[r] = orig_env[r]
+    return
+
+
+def _template_input(inputfile, dumpfile, flux=False, verbose=False):
+    """Do the work of :func:`template_input`, which restores the environment.
+    """
     import pickle
     from astropy.constants import c as cspeed
     from .. import __version__ as pydl_version
@@ -1664,14 +1683,6 @@ def template_input(inputfile, dumpfile, flux=False, verbose=False):
     hdulist.writeto(outfile+'.fits', overwrite=True)
     if metadata['object'].lower() != 'star':
         plot_eig(outfile+'.fits')
-    #
-    # Clean up
-    #
-    for r in ('run2d', 'run1d'):
-        if metadata['orig_'+r] is None:
-            del os.environ[r.upper()]
-        else:
-            os.environ[r.upper()] = metadata['orig_'+r]
     return
 
 
